@@ -20,6 +20,7 @@ type encChoice struct {
 	ForceCookie bool
 	Kind        func(key uint16, card int) int
 	Gran        int
+	Subset      int // when > 0: Subset-1 is a bit mask over key ranks
 }
 
 func encChoices() []encChoice {
@@ -43,17 +44,29 @@ func encChoices() []encChoice {
 		}
 		return spec.KArray
 	}
-	return []encChoice{
-		{"array/bitmap, plain cookie", false, ab, 0},
-		{"array/bitmap, run-capable cookie without run chunks", true, ab, 0},
-		{"all runs, maximal", false, run, 0},
-		{"all runs, one run per value", false, run, 1},
-		{"all runs, pieces of <=3 (adjacent runs)", false, run, 3},
-		{"all runs, pieces of <=64", false, run, 64},
-		{"runs on even keys", false, alt, 0},
-		{"runs on odd keys, pieces of <=2", false, alt2, 2},
-		{"runs only where cardinality > 4096", false, bigRun, 0},
+	// every run / non-run assignment for the first four chunks (bit i of mask = chunk index i is run-encoded):
+	// resolved per state through the key order, see subsetKind
+	return append(subsetChoices(), []encChoice{
+		{"array/bitmap, plain cookie", false, ab, 0, 0},
+		{"array/bitmap, run-capable cookie without run chunks", true, ab, 0, 0},
+		{"all runs, maximal", false, run, 0, 0},
+		{"all runs, one run per value", false, run, 1, 0},
+		{"all runs, pieces of <=3 (adjacent runs)", false, run, 3, 0},
+		{"all runs, pieces of <=64", false, run, 64, 0},
+		{"runs on even keys", false, alt, 0, 0},
+		{"runs on odd keys, pieces of <=2", false, alt2, 2, 0},
+		{"runs only where cardinality > 4096", false, bigRun, 0, 0},
+	}...)
+}
+
+// subsetChoices: 16 assignments of {run, array/bitmap} to the chunks at key ranks 0..3 (keys are ranked per state).
+func subsetChoices() []encChoice {
+	var out []encChoice
+	for mask := 0; mask < 16; mask++ {
+		mask := mask
+		out = append(out, encChoice{Name: fmt.Sprintf("run-encode chunk ranks %04b, pieces of <=5", mask), Gran: 5, Subset: mask + 1})
 	}
+	return out
 }
 
 func runC06(c *Ctx) {
@@ -99,7 +112,21 @@ func runC06(c *Ctx) {
 			if e.Gran == 1 && src.M.Card() > 70000 {
 				return "skipped-large", nil
 			}
-			cs := spec.FromModel(src.M, e.Kind, e.Gran)
+			kind := e.Kind
+			if e.Subset > 0 {
+				rank := map[uint16]int{}
+				for i, k := range src.M.Keys() {
+					rank[k] = i
+				}
+				mask := e.Subset - 1
+				kind = func(k uint16, _ int) int {
+					if r := rank[k]; r < 4 && mask&(1<<r) != 0 {
+						return spec.KRun
+					}
+					return spec.KArray
+				}
+			}
+			cs := spec.FromModel(src.M, kind, e.Gran)
 			for _, ch := range cs {
 				if len(ch.Runs) > 65535 {
 					return "skipped-unencodable", nil // the run count field is 16 bits wide
